@@ -40,7 +40,7 @@ def run_parser(tier, funcs, index, enums, res):
 
 def run_operands(tier, funcs, index, enums, res):
     import c11_operands as c11
-    small = [w for w in c11.PAIR_VOCAB if w in ("-type", "-size", "-inum", "-mtime", "-maxdepth", "-regextype", "-printf", "-newermm", "-newermmx", "f", "q", "", "5", "+5M", "x5k",
+    small = [w for w in c11.PAIR_VOCAB if w in ("-type", "-size", "-inum", "-mtime", "-maxdepth", "-regextype", "-printf", "-newermm", "-newermmx", "--newermm", "f", "q", "", "5", "+5M", "x5k",
                                                  "99999999999999999999", "sed", "bogus", "%p\\n", "%", "-print", "!", "(", ")")]
     plans = [(1, c11.PAIR_VOCAB), (2, c11.PAIR_VOCAB), (3, small if tier == "quick" else c11.PAIR_VOCAB)]
     for n, vocab in plans:
@@ -233,6 +233,26 @@ def run_print0(tier, funcs, index, enums, res):
                          c7.STARTS, {k: c7.SHAPES_ALL[k] for k in shapes}))
 
 
+def run_types(tier, funcs, index, enums, res):
+    import c16_types
+    r = c16_types.explore(funcs, index, enums)
+    res["functions_executed"].update(r.pop("functions_executed"))
+    for v in r.pop("violations"):
+        res["violations"].append({"key": "types | %s | %s" % (v.get("class"), v.get("world", "").split(",")[1].strip() if "," in v.get("world", "") else ""), "summary": v["what"],
+                                  "replayer": "printf_y", "what": v["what"], "world": v.get("world")})
+    for k, c in r.pop("unsupported").items():
+        res["unsupported"][k] = res["unsupported"].get(k, 0) + c
+    r["bound"] = "%y/%Y/-type/-xtype over the symbolic stat world"
+    r["inputs_covered"] = r.pop("checks")
+    res["runs"].append(r)
+    t = ("format_directive(%y, %Y) + WalkEntry::{new,from_walkdir,metadata,file_type,path_is_symlink,follow} + Follow::{metadata,metadata_at_depth} + FileType::from + "
+         "TypeMatcher/XtypeMatcher::{new,matches} over a symbolic lstat/stat world")
+    b = ("types: lstat type in 7 kinds, stat of a link = one of 6 kinds or errno ENOENT/ELOOP/EACCES, -P/-H/-L, depth 0/1, explicit and walkdir entries (walkdir's DirEntry under "
+         "its contract: with follow_links a resolvable link reports its target); %Y and -xtype asserted where the follow mode does not resolve the entry")
+    res["target"] = (res.get("target") + "; " if res.get("target") else "") + t
+    res["bounds"] = (res.get("bounds") + "; " if res.get("bounds") else "") + b
+
+
 def run_printf(tier, funcs, index, enums, res):
     import c16_printf as c16
     res["target"] = ("FormatString::parse (parse_format_specifier, parse_format_width, parse_escape_sequence, advance_*/peek) on format strings assembled from a vocabulary of items, "
@@ -257,7 +277,7 @@ def run_printf(tier, funcs, index, enums, res):
                      "starting points %r; tree shapes %s; name bytes symbolic over ASCII 1..127 without '/'; per entry the written bytes are compared with the reference rendering "
                      "(padding to the minimum width on the left, on the right with '-', never truncated)" % (
                          len(full), c16.WIDTHS if tier != "quick" else c16.WIDTHS[:6], len(small) if tier == "quick" else len(full), " and of 3 items over 9" if tier == "thorough" else "",
-                         __import__("c07_print0").STARTS, sorted({p[1] for p in plans})))
+                         c16.STARTS, sorted({p[1] for p in plans})))
 
 
 def main():
@@ -284,6 +304,9 @@ def main():
         run_glob(tier, funcs, index, enums, res)
     elif prop == "C16":
         run_printf(tier, funcs, index, enums, res)
+        run_types(tier, funcs, index, enums, res)
+    elif prop == "C13":
+        run_types(tier, funcs, index, enums, res)
     elif prop == "C07":
         run_print0(tier, funcs, index, enums, res)
     elif prop == "C20":
